@@ -166,11 +166,13 @@ func RunChildMarked(args []string, env []string, timeout time.Duration) (*ChildR
 	cmd := exec.CommandContext(ctx, exe, args...)
 	cmd.Env = append(os.Environ(), "GORACE=halt_on_error=0 history_size=4")
 	cmd.Env = append(cmd.Env, env...)
-	var stdout, stderr bytes.Buffer
+	// stderr is parsed while it arrives: a change that races on every call makes the child print gigabytes of reports
+	var stdout bytes.Buffer
+	stderr := &raceSink{p: newRaceParser()}
 	cmd.Stdout = &stdout
-	cmd.Stderr = &stderr
+	cmd.Stderr = stderr
 	runErr := cmd.Run()
-	races := ParseRaces(stderr.String())
+	races := stderr.finish()
 	var res *ChildResult
 	sc := bufio.NewScanner(&stdout)
 	sc.Buffer(make([]byte, 1<<20), 1<<28)
@@ -186,21 +188,68 @@ func RunChildMarked(args []string, env []string, timeout time.Duration) (*ChildR
 	if ctx.Err() != nil {
 		problem = "TIMEOUT"
 	} else if res == nil {
-		tail := stderr.String()
-		if len(tail) > 1500 {
-			tail = tail[len(tail)-1500:]
-		}
-		problem = fmt.Sprintf("child ended without a result (%v); stderr tail: %s", runErr, tail)
+		problem = fmt.Sprintf("child ended without a result (%v); stderr tail: %s", runErr, stderr.tail)
 	}
 	// exit status 66 = "races were reported": expected, not a problem
-	return res, races, problem, OpenMarks(stderr.String())
+	return res, races, problem, stderr.p.marks.open
+}
+
+const raceHeader = "WARNING: DATA RACE"
+
+// raceSink is the child's stderr: it hands complete reports to the parser as
+// they arrive and keeps only the distinct ones and the last 1500 bytes.
+type raceSink struct {
+	p    *raceParser
+	acc  []byte
+	tail []byte
+}
+
+func (k *raceSink) Write(b []byte) (int, error) {
+	k.acc = append(k.acc, b...)
+	k.tail = append(k.tail, b...)
+	if len(k.tail) > 1500 {
+		k.tail = append([]byte{}, k.tail[len(k.tail)-1500:]...)
+	}
+	if len(k.acc) > 1<<20 {
+		if i := bytes.LastIndex(k.acc, []byte(raceHeader)); i > 0 {
+			// everything before the last header consists of complete reports
+			k.p.feed(string(k.acc[:i]))
+			k.acc = append([]byte{}, k.acc[i:]...)
+		} else if len(k.acc) > 1<<23 {
+			if j := bytes.LastIndexByte(k.acc, '\n'); j > 0 {
+				k.p.feed(string(k.acc[:j+1]))
+				k.acc = append([]byte{}, k.acc[j+1:]...)
+			}
+		}
+	}
+	return len(b), nil
+}
+
+func (k *raceSink) finish() []Race {
+	k.p.feed(string(k.acc))
+	k.acc = nil
+	return k.p.races()
 }
 
 // ParseRaces extracts the distinct "WARNING: DATA RACE" reports.
 func ParseRaces(stderr string) []Race {
-	byKey := map[string]*Race{}
-	blocks := strings.Split(stderr, "WARNING: DATA RACE")
-	var marks markState
+	p := newRaceParser()
+	p.feed(stderr)
+	return p.races()
+}
+
+type raceParser struct {
+	byKey map[string]*Race
+	marks markState
+}
+
+func newRaceParser() *raceParser { return &raceParser{byKey: map[string]*Race{}} }
+
+// feed takes the next piece of stderr; a piece ends where a report ends (it
+// is the whole stderr, or it was cut in front of a report header).
+func (p *raceParser) feed(stderr string) {
+	byKey, marks := p.byKey, &p.marks
+	blocks := strings.Split(stderr, raceHeader)
 	marks.feed(blocks[0])
 	for _, b := range blocks[1:] {
 		openNow := append([]string{}, marks.open...)
@@ -257,8 +306,11 @@ func ParseRaces(stderr string) []Race {
 			byKey[key] = &Race{Key: key, Text: text, Count: 1, Marks: openNow}
 		}
 	}
+}
+
+func (p *raceParser) races() []Race {
 	var out []Race
-	for _, r := range byKey {
+	for _, r := range p.byKey {
 		out = append(out, *r)
 	}
 	sort.Slice(out, func(i, j int) bool { return out[i].Key < out[j].Key })
